@@ -53,6 +53,34 @@ def check_msm(ctx, identity, enc, labelmsm, params):
     if prev is not None:
         ctx.hit("earlier_results_rechecked")
     _EARLIER[identity] = (out, repr(out), enc.payload.hex())
+    if len(enc.payload) % 3 == 0 and isinstance(out, (tuple, list)) and len(out) == 3:
+        # what the helper hands out belongs to the caller: after the caller has modified it in place, asking again for
+        # the same message gives the unmodified answer
+        import copy as _copy
+
+        want_again = _copy.deepcopy(out)
+        try:
+            for part in out:
+                if isinstance(part, dict):
+                    part.clear()
+                elif isinstance(part, list):
+                    part.reverse()
+                    del part[:1]
+        except Exception:
+            pass
+        try:
+            again = parse_msm(m)
+        except Exception as e:
+            ctx.violation("msm-helper-raised", f"{identity}: second call of parse_msm raised {type(e).__name__}: {e}", params)
+            return
+        if repr(again) != repr(want_again):
+            ctx.violation("msm-earlier-result-changed", f"{identity}: after the caller modified the returned arrays in place, "
+                          f"a second parse_msm(msg) on the same message returns the modified data", params)
+            return
+        out = again
+        meta, sats, cells = out
+        _EARLIER[identity] = (out, repr(out), enc.payload.hex())
+        ctx.hit("results_modified_by_caller")
     if not out or len(out) != 3:
         ctx.violation("msm-helper-empty", f"{identity}: parse_msm returned {out!r} for an MSM message", params)
         return
